@@ -4,14 +4,24 @@ import json, os
 HERE = os.path.dirname(os.path.abspath(__file__))
 BMC = "bounded model checking of the real Rust source (Kani/CBMC symbolic execution + SAT)"
 CLAIMS = {
+ 'C01': ("Solver verdicts over the real NewOrder::new (count, order, type and value of every identifier, 1 and 3 symbolic identifiers) and the real Csr::new against an OpenSSL model that records what the builders were given: CSR key == signing key == given key, digest as configured (none for EdDSA), SAN entries exactly the given names in order, subject attribute kept.",
+         "OpenSSL builders are records (DER/self-signature/SAN encoding trusted); IDNA and IP canonicalisation, JSON serialisation and the CSR-key/key-file link of the flow are outside (see evidence).", "5 C01"),
+ 'C05': ("For a name and its wildcard configured with any of the 3x3 challenge assignments in either order, and for each single form, the solver shows the real lookup picks the entry matching the authorization's wildcard flag; unknown names are rejected.",
+         "Only the identifier/challenge selection is decided; hook ordering in request_certificate and the proof strings are outside (flow / format! did not converge).", "5 C05"),
  'C06': ("For every (days, secs) pair OpenSSL's time difference can return (full i32 range of days) the solver shows expires_in is the exact remaining lifetime clamped at 0, with no overflow; renew_in/schedule_renewal arithmetic per DESIGN.md C06.",
          "Trusted: OpenSSL ASN.1 time parsing/diff (modelled by contract), rustc->Kani->CBMC translation. Bounds and cuts are listed in the evidence file of each run.", "5 C06"),
  'C08': ("For every ASCII problem-type string up to 48 bytes the solver shows that the real classification retries exactly the seven recoverable ACME types; the retry loop of http::post is covered per DESIGN.md C08 as far as its harness converged.",
          "serde_json parsing of the problem document and reqwest are trusted; non-ASCII / longer type strings are outside the bound.", "5 C08"),
  'C09': ("Inductive single step of the real RateLimit::block_until_allowed from an arbitrary log: window count and no-forgetting invariants hold for every log content, period 1..20 s and clock reading (n<=3, <=2 limits); with the induction argument in DESIGN.md this bounds every window of every history. Liveness: a permitted request returns after one sleep.",
          "Whole-second clock; sleep/Instant::now replaced by over-approximating models; n<=3, periods<=20 s, <=2 limits; http.rs call sites covered only as far as DESIGN.md C09 says.", "5 C09"),
+ 'C13': ("For every u32 mode and every presence pattern the solver shows the mode/owner getters return the configured value, else 0600 (keys, accounts) / 0644 (certificates) / none.",
+         "Only the configuration getters; the open()/chown path of storage::write_file is covered as far as DESIGN.md C13 says.", "5 C13"),
  'C14': ("For each of the 14 Option-typed [global] options and every presence pattern in including/included file the solver shows the later file wins on a verbatim slice of read_cnf; sections are concatenated; renew_delay / random_early_renew / file_name_format / directory take the most specific level for every presence pattern; unresolved endpoint / rate-limit references are rejected.",
          "Source slice of read_cnf (inline merge code), parse_duration replaced by a tag model in this unit, glob/include-graph/file I/O and the [global] env table outside (see evidence 'outside_bounds').", "5 C14"),
+ 'C15': ("Solver verdicts over the real key code against an OpenSSL model whose big numbers have symbolic length: the 7x9 key/algorithm table is exactly the 7 legal pairs; sign() dispatches to the right primitive/digest and signs once with the given key; ECDSA JWS signatures have exactly 2*size bytes for r, s of ANY minimal length (P-256/384/521); the padding macro right-aligns and zero-pads for every size <= 5 and length.",
+         "OpenSSL itself (key generation, real signatures, PEM/DER) is the trusted base; JWK JSON member sets and the EdDSA public-key string surgery did not converge and are outside.", "5 C15"),
+ 'C18': ("For all 8 presence combinations of the three root-certificate sources (file names symbolic) the solver shows Endpoint::to_generic hands the HTTP layer exactly command line ++ endpoint ++ global, in order.",
+         "Chain and host-name validation by reqwest/native-tls/OpenSSL is the trusted base; file reading and the client construction in http.rs are outside unless DESIGN.md C18 says otherwise.", "5 C18"),
  'C19': ("For every period string inside the stated shapes the solver shows no panic/overflow and acceptance exactly per the documented grammar with the exact sum; zero/huge rate limits neither divide by zero nor refuse the first request forever; hook-group recursion bounded.",
          "TOML/serde layer, include cycles and file I/O are outside (not_applicable parts listed in DESIGN.md C19). fmt::format stubbed where message text is irrelevant.", "5 C19"),
 }
